@@ -577,7 +577,11 @@ func check(r *core.Run) {
 
 var goodIDs = []string{"t2c", "ib", "bb-r1", "bb-r2", "e5", "i1", "t2", "a3", "m4", "s4", "t2b",
 	"fd", "e6", "tgt", "tgt2", "dv", "dvok", "rv", "lnk", "bg",
-	"idm", "idb", "fm1", "fm2", "fs", "au", "sr1", "sr2", "ibf"}
+	"idm", "idb", "fm1", "fm2", "fs", "au", "sr1", "sr2"}
+
+// (the text read from a FILE, "ibf", is left to the exhaustive third catalogue: a successful Read makes its directory part
+// of the search path, and a later Process may then fetch bb.yang from there for an importer of bb - a load that
+// Session.tla does not model; the third catalogue holds no importer of bb)
 
 // the two-module text whose second module is rejected is left out: what it leaves behind is the listed finding
 var badIDs = []string{"x-file-syntax", "x-top-level-grouping", "x-syntax", "x-typedefs-then-rejected", "x-unknown-top", "x-top-level-container"}
